@@ -699,11 +699,16 @@ class Executor(Engine):
         the records of the converters in scope. Makes the later frame reasoning a one-step instantiation."""
         c = self.ctx
         for name, v in sorted(st.env.items()):
+            recs = None
             if isinstance(v, VRef) and v.cls == "Converter":
                 recs = st.field(c, v, "records")
+                name = name + ".records"
+            elif isinstance(v, VList) and v.ety == "Record" and not name.startswith("__"):
+                recs = v
+            if recs is not None and recs.n.s != "0":
                 i = c.bvar("i", "Int")
                 fact = ForAll([i], Implies(And(Le(Int(0), i), Lt(i, recs.n)), Not(Eq(recs.at(i).t, r.t))), pats=[[recs.at(i).t]])
-                c.oblige(f"{where}:lemma: fresh record is not in {name}.records", "lemma", st.pc, fact, where)
+                c.oblige(f"{where}:lemma: fresh record is not in {name}", "lemma", st.pc, fact, where)
                 fact.conj = None
                 st = st.assume(fact)
                 st.pc[-1].conj = "cut"
@@ -714,8 +719,13 @@ class Executor(Engine):
         records of the converters in scope unchanged — stated per field so that it works as a rewrite rule."""
         c = self.ctx
         for name, v in sorted(after.env.items()):
+            recs = None
             if isinstance(v, VRef) and v.cls == "Converter":
                 recs = before.field(c, v, "records")
+                name = name + ".records"
+            elif isinstance(v, VList) and v.ety == "Record" and not name.startswith("__"):
+                recs = v
+            if recs is not None and recs.n.s != "0":
                 for f in FIELDS["Record"]:
                     a0, a1 = before.harr(c, "Record", f), after.harr(c, "Record", f)
                     if a0.s == a1.s:
@@ -723,7 +733,7 @@ class Executor(Engine):
                     i = c.bvar("i", "Int")
                     fact = ForAll([i], Implies(And(Le(Int(0), i), Lt(i, recs.n)), Eq(Select(a1, recs.at(i).t), Select(a0, recs.at(i).t))),
                                   pats=[[Select(a1, recs.at(i).t)]])
-                    c.oblige(f"{where}:lemma: {f} of {name}.records unchanged by initialising the fresh record", "lemma", after.pc, fact, where)
+                    c.oblige(f"{where}:lemma: {f} of {name} unchanged by initialising the fresh record", "lemma", after.pc, fact, where)
                     after = after.assume(fact)
                     after.pc[-1].conj = "cut"
         return after
@@ -741,6 +751,17 @@ class Executor(Engine):
         idx = c.fun("elemidx", [c.sort(sv.ety)], "Int")
         ix = app(idx, x, sort="Int")
         c.assumptions.append(ForAll([x], Implies(sv.has(xv), And(rng(ix), veq(c, lst.at(ix), xv)))))
+        # the same, instantiated along an explicit description of (a superset of) the set: index quantifiers with usable triggers
+        sup = sv.parts if sv.parts is not None else getattr(sv, "super_parts", None)
+        for pk, pv in (sup or []):
+            if pk == "one":
+                ie = app(idx, c.term(pv, sv.ety), sort="Int")
+                c.assumptions.append(Implies(sv.has(pv), And(rng(ie), veq(c, lst.at(ie), pv))))
+            elif isinstance(pv, VList):
+                m_ = c.bvar("m", "Int")
+                el = pv.at(m_)
+                ie = app(idx, c.term(el, sv.ety), sort="Int")
+                c.assumptions.append(ForAll([m_], Implies(And(Le(Int(0), m_), Lt(m_, pv.n), sv.has(el)), And(rng(ie), veq(c, lst.at(ie), el)))))
         return lst
 
     def do_ctor(self, cls, call, st, catching):
@@ -1306,6 +1327,16 @@ class Executor(Engine):
                 raise Unsupported(f"for over {type(xs).__name__}")
             # freeze the iterated list (Python iterates the live list; bodies here never mutate it — checked)
             names, heap_fields = self.assigned_names(s.body)
+            # empty container literals take their element type from the invariant's parameter annotations
+            inv_node = self.invariants.get(key)
+            if inv_node is not None:
+                for a in inv_node.args.args:
+                    if a.annotation is not None and a.arg in s0.env and getattr(s0.env[a.arg], "empty", False):
+                        ty = parse_ty(ast.unparse(a.annotation))
+                        if ty[0] == "list" and isinstance(s0.env[a.arg], VList):
+                            junk = c.fresh("junk", ty[1])
+                            s0 = s0.copy()
+                            s0.env[a.arg] = VList(Int(0), lambda i, junk=junk: junk, ty[1])
             w = self.where(s)
             c.oblige(f"{w}:loop{key[1]}:invariant holds on entry", "invariant-init", s0.pc,
                      self.invariant(key, s0.env, s0, {"_i": VInt(Int(0)), "_xs": xs}), w)
